@@ -7,7 +7,7 @@ import (
 // lemmaVC: a lemma is an SMT goal over spec functions only (no code).
 func lemmaVC(p *Program, cs *Contracts, l *Lemma) (vc *VC, errs string) {
 	vc = newVC(p, "lemma."+l.Name)
-	e := &Engine{vc: vc, prog: p, cs: cs, compSort: map[string]string{}, maxDepth: 6, siteHits: map[*SiteSpec]int{}, usedPure: map[string]bool{}}
+	e := &Engine{vc: vc, prog: p, cs: cs, compSort: map[string]string{}, maxDepth: 6, siteHits: map[*SiteSpec]int{}, sitePat: map[*SiteSpec]int{}, usedPure: map[string]bool{}}
 	vc.decls = append(vc.decls, "(declare-const alloc@0 Int)", "(assert (>= alloc@0 0))")
 	defer func() {
 		if r := recover(); r != nil {
